@@ -59,6 +59,12 @@ def field_routes():
                   tmpl % ("qubit fresh; measure fresh; h(a); echo(\"ok\");", route), "runs:ok\n"))
         R.append(("temporary's %s: measured, reset, then a gate" % route,
                   tmpl % ("measure a; qubit fresh; reset a; x(a); echo(\"ok\");", route), "runs:ok\n"))
+    # a measurement written once inside an array literal in expression position happens once
+    lit = "function show(bit[] b) -> void { echo(b[0]); }\nfunction main() -> void { qubit q; x(q); %s }"
+    R.append(("measure as the first element of an array-literal argument", lit % "show({measure q});", "runs:1\n"))
+    R.append(("measure as the first element of an assigned array literal", lit % "bit[] b = {0b}; b = {measure q, 0b}; echo(b[0]);", "runs:1\n"))
+    R.append(("measure as the second element of an array-literal argument", lit % "qubit p; show({measure p, measure q}); x(p); echo(\"no\");", "refused"))
+    R.append(("the literal's qubit, measured once there, then refuses a gate", lit % "show({measure q}); x(q);", "refused"))
     return R
 
 def run_field_routes(chk):
